@@ -199,10 +199,11 @@ impl FactoryWorld {
 }
 
 pub fn gen_requirements(s: &mut Src, w: &World) -> CreatePairRequirements {
-    let whitelist: Vec<Addr> = match s.weighted(&[3, 2, 1]) {
+    let whitelist: Vec<Addr> = match s.weighted(&[3, 2, 1, 1]) {
         0 => vec![],
         1 => vec![w.actors[0].clone()],
-        _ => w.actors.clone(),
+        2 => w.actors.clone(),
+        _ => vec![w.actors[1].clone(), w.actors[0].clone(), w.actors[1].clone()], // duplicates
     };
     let m = |s: &mut Src| match s.weighted(&[3, 1]) {
         0 => 0u128,
